@@ -111,41 +111,81 @@ def install_contracts(mon):
 # embedding oracle
 
 
-def build_shapes(s, full=True):
-    """yield (shape name, built Query) with s embedded at argument positions."""
-    from liquer.parser import (Query, LinkActionParameter, SegmentHeader, StringActionParameter,
-                               TransformQuerySegment, ActionRequest)
+# A shape is a specification: list of actions (name, args); an argument is the text itself ("S"), a constant, or a link
+# ("L", absolute, [actions]).  The expected structure is derived from the SPECIFICATION (independently of the library);
+# the query is built with the library's object API.
+S = object()
 
-    yield "single", Query().with_action("f", s)
+
+def shapes(full=True):
+    yield "single", (None, [("f", [S])])
+    yield "neighbours", (None, [("f", ["x", S, "y"]), ("g", [S])])
     if not full:
-        yield "neighbours", Query().with_action("f", "x", s, "y").with_action("g", s)
         return
-    yield "neighbours", Query().with_action("f", "x", s, "y").with_action("g", s)
-    yield "three_actions", Query().with_action("f", s).with_action("g", "q", s).with_action("h", s, s)
-    inner = Query(absolute=False)
-    inner.segments.append(TransformQuerySegment(query=[ActionRequest.from_arguments("g", s),
-                                                       ActionRequest.from_arguments("h", "k", s)]))
-    yield "link_relative", Query().with_action("f", LinkActionParameter(inner), s)
-    inner2 = Query(absolute=True)
-    inner2.segments.append(TransformQuerySegment(query=[ActionRequest.from_arguments("g", s)]))
-    deep = Query(absolute=False)
-    deep.segments.append(TransformQuerySegment(query=[ActionRequest.from_arguments("m", s, LinkActionParameter(inner2))]))
-    yield "link_nested", Query().with_action("f", s, LinkActionParameter(deep), "z")
-    hq = Query()
-    hq.segments.append(TransformQuerySegment(
-        header=SegmentHeader("ns", level=2, parameters=[StringActionParameter(s), StringActionParameter("p")]),
-        query=[ActionRequest.from_arguments("f", s)]))
-    yield "header_param", hq
+    yield "three_actions", (None, [("f", [S]), ("g", ["q", S]), ("h", [S, S])])
+    yield "link_relative", (None, [("f", [("L", False, [("g", [S]), ("h", ["k", S])]), S])])
+    yield "link_nested", (None, [("f", [S, ("L", False, [("m", [S, ("L", True, [("g", [S])])])]), "z"])])
+    yield "header_param", (("ns", 2, [S, "p"]), [("f", [S])])
+
+
+def expected_struct(spec, s, absolute=False, top=True):
+    header, actions = spec if top else (None, spec)
+
+    def arg(a):
+        if a is S:
+            return ["s", s]
+        if isinstance(a, tuple) and a[0] == "L":
+            return ["l", ["Q", bool(a[1]), [["T", None, [[n, [arg(x) for x in args]] for n, args in a[2]], None]]]]
+        return ["s", a]
+
+    if top:
+        h = [1, "", False, []] if header is None else [header[1], header[0], False, [arg(x) for x in header[2]]]
+    else:
+        h = None
+    return ["Q", bool(absolute), [["T", h, [[n, [arg(x) for x in args]] for n, args in actions], None]]]
+
+
+def build_query(spec, s):
+    from liquer.parser import (Query, LinkActionParameter, SegmentHeader, StringActionParameter, TransformQuerySegment,
+                               ActionRequest)
+
+    header, actions = spec
+
+    def arg(a):
+        if a is S:
+            return s
+        if isinstance(a, tuple) and a[0] == "L":
+            inner = Query(absolute=a[1])
+            inner.segments.append(TransformQuerySegment(query=[ActionRequest.from_arguments(n, *[arg(x) for x in args]) for n, args in a[2]]))
+            return LinkActionParameter(inner)
+        return a
+
+    if header is None:
+        q = Query()
+        for n, args in actions:
+            q.with_action(n, *[arg(x) for x in args])
+        return q
+    q = Query()
+    q.segments.append(TransformQuerySegment(
+        header=SegmentHeader(header[0], level=header[1], parameters=[StringActionParameter(arg(x)) for x in header[2]]),
+        query=[ActionRequest.from_arguments(n, *[arg(x) for x in args]) for n, args in actions]))
+    return q
+
+
+def build_shapes(s, full=True):
+    for name, spec in shapes(full):
+        yield name, build_query(spec, s)
 
 
 def embed_check(s, full, viol, counters):
     import liquer.parser as P
     from lqv import qstruct
 
-    for shape, q in build_shapes(s, full):
+    for shape, spec in shapes(full):
         counters["embed." + shape] = counters.get("embed." + shape, 0) + 1
-        want = qstruct.query(q)
+        want = expected_struct(spec, s)
         try:
+            q = build_query(spec, s)
             text = q.encode()
         except Exception as e:  # contract refutations propagate to the caller
             from lqv.mon.contracts import ContractRefuted
@@ -173,11 +213,20 @@ def embed_check(s, full, viol, counters):
         viol("embed.list_of_lists.decode", {"text": s, "encoded": enc, "decoded": back})
     try:
         pq = P.parse(enc)
-        acts = [a.to_list() for a in pq.segments[0].query]
-        if len(pq.segments) != 1 or acts != ll:
+        acts = [[a.name] + [qstruct.param(p) for p in a.parameters] for a in pq.segments[0].query]
+        want_acts = [[c[0]] + [["s", t] for t in c[1:]] for c in ll]
+        if len(pq.segments) != 1 or acts != want_acts:
             viol("embed.list_of_lists.parse", {"text": s, "encoded": enc, "parsed": acts})
     except Exception as e:
         viol("embed.list_of_lists.parse_rejected", {"text": s, "encoded": enc, "error": repr(e)[:200]})
+    # ActionRequest.from_list / to_list
+    counters["embed.from_list"] = counters.get("embed.from_list", 0) + 1
+    try:
+        ar = P.ActionRequest.from_list(["f", s, "k"])
+        if [qstruct.param(p) for p in ar.parameters] != [["s", s], ["s", "k"]]:
+            viol("embed.from_list.argument_reinterpreted", {"text": s, "parameters": [qstruct.param(p) for p in ar.parameters]})
+    except Exception as e:
+        viol("embed.from_list.raises", {"text": s, "error": repr(e)[:200]})
 
 
 def gen_strings(spec):
